@@ -371,6 +371,51 @@ func BuildBase(name string, cfg Config, seed uint32) (*Base, error) {
 		bb.key("n1", 0x00550001) // new key for bucket 1 (full head: takes an overflow bucket)
 		bb.key("n2", 0x00770000) // second new key for bucket 0
 		return bb.finish([]string{"h0", "b1", "m2", "n0", "n1", "n2"}, []string{"p07", "p19", "q05"})
+	case "SC":
+		// level 2, split pointer 0, 4 buckets, 86 keys (the 87th splits bucket 0): bucket 0 = full head + an overflow
+		// bucket with 5 keys that all STAY at the split (low three hash bits 000), bucket 1 = exactly full. The split
+		// rebuilds bucket 0's chain in a new overflow bucket and frees the old one; the next insert into bucket 1
+		// takes the freed bucket and overwrites it - while a scan may sit between bucket 0's head and its overflow bucket.
+		var order []string
+		for i := 0; i < 31; i++ {
+			r := fmt.Sprintf("a%02d", i)
+			bb.key(r, uint32(i+1)<<8|0x00)
+			order = append(order, r)
+			r = fmt.Sprintf("b%02d", i)
+			bb.key(r, uint32(i+1)<<8|0x01)
+			order = append(order, r)
+			if i < 10 {
+				r = fmt.Sprintf("c%02d", i)
+				bb.key(r, uint32(i+1)<<8|0x02)
+				order = append(order, r)
+			}
+			if i < 9 {
+				r = fmt.Sprintf("d%02d", i)
+				bb.key(r, uint32(i+1)<<8|0x03)
+				order = append(order, r)
+			}
+		}
+		for i := 31; i < 36; i++ {
+			r := fmt.Sprintf("a%02d", i)
+			bb.key(r, uint32(i+1)<<8|0x00)
+			order = append(order, r)
+		}
+		for _, r := range order {
+			bb.put(r)
+		}
+		if bb.err != nil {
+			return nil, bb.err
+		}
+		if vi, err := bb.s.DB.VerifIndex(); err != nil || vi.Level != 2 || vi.SplitBucketIdx != 0 || vi.NumKeys != 86 || len(vi.Chains[0]) != 2 || len(vi.Chains[1]) != 1 {
+			return nil, fmt.Errorf("base SC: unexpected index shape %+v (err %v)", vi.NumBuckets, err)
+		}
+		bb.alias("h0", bb.at(0, 0, 0))
+		bb.alias("ov", bb.at(0, 1, 0))
+		bb.alias("b1", bb.at(1, 0, 0))
+		bb.key("nA", 0x00AA0003) // new key for bucket 3: the 87th key, splits bucket 0
+		bb.key("nB", 0x00BB0001) // new key for the full bucket 1: needs an overflow bucket
+		bb.key("nC", 0x00CC0002)
+		return bb.finish([]string{"h0", "ov", "b1", "nA", "nB", "nC"}, []string{"a33", "a35", "c05"})
 	case "MS":
 		// mid-level split pointer AND the next new key splits: level 2, split pointer 1, 5 buckets, 108 keys;
 		// the 109th key splits bucket 1, whose keys with hash&7 == 5 move to the new bucket 5 - behind the
